@@ -251,6 +251,11 @@ def weight_linearity(ctx, rid, modules=('qubovert._pcbo',)):
 
 def rules(ctx):
     P, R = ctx.prog, ctx.res
+    ctx.rule('R16.4', "no function writes module-level state (memo / registry): results independent of earlier calls", floor=1)
+    from .C14 import no_module_state as _nms
+    _nms(ctx, 'R16.4')
+    from .C14 import derived_fields as _df
+    _df(ctx, 'R16.4')      # ... nor keeps derived state on a model that some mutator forgets (stale memo)
     ctx.rule('R16.1', "a weight `lam` reaches only arithmetic, lam= arguments and the allow-listed tests", floor=40)
     ctx.rule('R16.2', "subs builds a fresh object, stores every key on every path, never writes self; "
                       "PCBO.subs substitutes every recorded constraint; PCSO delegates", floor=6)
